@@ -2,6 +2,7 @@
 From Cctp Require Import Lib.Bytes Lib.SMap Lib.Text Lib.Bech32.
 From Cctp Require Import Model.Codec Model.State Model.Attest Model.Ledger Model.Handlers Model.Chain.
 From Cctp Require Import Proofs.MonadFacts Proofs.FlowFacts Proofs.HistoryFacts Proofs.DecisionFacts.
+From Cctp Require Import Vectors.Examples.
 
 (* the mint-side conditions, consulted only for messages addressed to the CCTP module *)
 Definition mint_conditions (e : env) (c : chain) (plan : list directive) (m : message) : Prop :=
@@ -92,6 +93,10 @@ Proof.
   - destruct H as [H|H]; [discriminate|]. injection H as ->. apply beqb_refl.
   - destruct H; discriminate.
 Qed.
+
+(* non-vacuity: the acceptance conditions are satisfiable - a concrete attested burn message in a concrete chain *)
+Example C03_conditions_satisfiable : receive_conditions ex_env2 ex_chain2 [] ex_alice (ex_message 6) (repeat x00 65).
+Proof. apply C03_receive_iff. exact (proj1 ex_receive_ok). Qed.
 
 Print Assumptions C03_receive_iff.
 Print Assumptions C03_receive_fail_no_effect.
